@@ -49,7 +49,7 @@ from zcsim.world import SimWorld
 ID = "C18"
 LEVEL = "exploration"
 HAS_CLOCK = False
-BUDGET = {"quick": (3000, 300), "thorough": (150000, 1500)}
+BUDGET = {"quick": (4000, 300), "thorough": (150000, 1500)}
 RULE = (
     "A case is one load of one scenario through one entry point.  Scenario: "
     "real scratch tree of <=3 directory levels with names over letters, "
